@@ -124,9 +124,46 @@ def parse_db_phases(path):
     return phases
 
 
+def parse_db_elements(path):
+    """element names of SOLUTION_MASTER_SPECIES (valence states folded)"""
+    out = set()
+    on = False
+    for raw in open(path, errors="replace"):
+        line = raw.split("#")[0].strip()
+        if not line:
+            continue
+        t0 = line.split()[0]
+        if re.match(r"^[A-Z_]{4,}$", t0):
+            on = (t0 == "SOLUTION_MASTER_SPECIES")
+            continue
+        if on:
+            out.add(t0.split("(")[0])
+            out.add(t0)
+    return out
+
+
+_CHEMS = {}
+
+
+def chem_for(db):
+    if db not in _CHEMS:
+        _CHEMS[db] = Chem(os.path.join(vlib.DB, db))
+    return _CHEMS[db]
+
+
 class Chem:
     def __init__(self, dbpath):
         self.phases = parse_db_phases(dbpath)
+        self.elements = parse_db_elements(dbpath)
+
+    def knows(self, name):
+        """phase of the database, or a formula all of whose elements the database defines"""
+        if name in self.phases:
+            return True
+        try:
+            return all(e in self.elements for e in parse_formula(name))
+        except Exception:
+            return False
 
     def formula_of(self, name):
         """elements of one mole of `name`: a phase of the database, else a formula (as reaction_calc does)"""
@@ -458,10 +495,12 @@ def lu(rng, lo, hi):
 
 def gen_system(rng):
     """-> dict describing one random one-cell system with a chain of USE/SAVE simulations"""
-    S = {"db": "phreeqc.dat", "sols": [], "sims": []}
+    db = rng.choice(["phreeqc.dat"] * 6 + ["wateq4f.dat", "Amm.dat", "pitzer.dat", "pitzer.dat"])
+    ch = chem_for(db)
+    S = {"db": db, "sols": [], "sims": []}
     nsol = 1 if rng.random() < 0.6 else rng.choice([2, 3])
     for i in range(nsol):
-        comp = [(e, lu(rng, lo, hi)) for e, lo, hi, p in SOL_MENU if rng.random() < p]
+        comp = [(e, lu(rng, lo, hi)) for e, lo, hi, p in SOL_MENU if rng.random() < p and elt_of(e) in ch.elements]
         if not any(e == "Na" for e, _ in comp):
             comp.append(("Na", lu(rng, 1, 50)))
         S["sols"].append({"n": i + 1, "pH": round(rng.uniform(5.5, 8.8), 2), "temp": rng.choice([25, 25, 25, 15, 35]),
@@ -480,23 +519,29 @@ def gen_system(rng):
                         "mode": rng.choice(["ddl", "ddl", "donnan", "donnan", "no_edl", "diffuse_layer", "donnan_oci"])}
     S["pp"] = None
     if rng.random() < 0.6:
-        names = rng.sample(PP_MENU, rng.choice([1, 1, 2, 3]))
+        names = rng.sample([p for p in PP_MENU if p in ch.phases], rng.choice([1, 1, 2, 3]))
         comps = [(nm, 0.0, rng.choice([0, 0, 1e-4, 1e-3, 0.01, 0.1])) for nm in names]
+        if rng.random() < 0.25:
+            # variants: precipitate_only / dissolve_only / alternative formula (the amount is then of that formula)
+            nm, si, m = comps[0]
+            comps[0] = rng.choice([(nm, si, "%s precipitate_only" % fnum(m)), (nm, si, "%s dissolve_only" % fnum(max(m, 1e-3))),
+                                   ("Gypsum", 0.0, "CaSO4:2H2O %s" % fnum(max(m, 1e-3))), ("Calcite", 0.0, "CaCO3 %s" % fnum(max(m, 1e-3)))])
         if rng.random() < 0.3:
             comps.append(("CO2(g)", round(rng.uniform(-3.5, -1.0), 2), rng.choice([10, 0.01, 0.001])))
         S["pp"] = comps
     S["gas"] = None
     if rng.random() < 0.4:
-        names = rng.sample(GAS_MENU, rng.choice([1, 2, 3]))
+        gm = [g for g in GAS_MENU if g in ch.phases]
+        names = rng.sample(gm, min(len(gm), rng.choice([1, 2, 3])))
         S["gas"] = {"fixed_p": rng.random() < 0.5, "p": rng.choice([1, 1, 2, 0.5]), "vol": round(lu(rng, 0.05, 2), 3),
                     "comps": [(nm, (lu(rng, 1e-3, 0.5) if nm != "H2O(g)" else 0.03)) for nm in names]}
     S["ss"] = None
     if rng.random() < 0.35:
-        nm, a, b = rng.choice(SS_MENU)
+        nm, a, b = rng.choice([t for t in SS_MENU if t[1] in ch.phases and t[2] in ch.phases])
         S["ss"] = [(nm, [(a, rng.choice([0, 1e-4, 1e-3, 0.01])), (b, rng.choice([0, 1e-5, 1e-4, 1e-3]))])]
     S["kin"] = None
     if rng.random() < 0.4:
-        ks = rng.sample(KIN_MENU, rng.choice([1, 1, 2]))
+        ks = rng.sample([k for k in KIN_MENU if (k[2] is None or k[2] in ch.phases) and all(ch.knows(f) for f, _ in k[1])], rng.choice([1, 1, 2]))
         S["kin"] = {"comps": [(nm, fl, ph, lu(rng, 1e-3, 1.0), lu(rng, 1e-9, 1e-6)) for nm, fl, ph in ks],
                     "time": rng.choice([100, 1000, 3600, 86400]), "nsteps": rng.choice([1, 1, 2, 3]),
                     "rk": rng.choice([3, 3, 6, "cvode"])}
@@ -512,7 +557,8 @@ def gen_system(rng):
             sim["mix"] = None
         sim["rxn"] = None
         if rng.random() < 0.85:
-            rs = rng.sample(RXN_MENU, rng.choice([1, 1, 2, 3]))
+            # databases without redox states of oxygen (pitzer.dat) cannot represent added O2: outside their domain
+            rs = rng.sample([r for r in RXN_MENU if ch.knows(r[0]) and (r[0] != "O2" or "O(0)" in ch.elements)], rng.choice([1, 1, 2, 3]))
             reactants = [(nm, round(rng.choice([1, 1, 0.5, 2, rng.uniform(0.1, 2)]) * w * (-1 if rng.random() < 0.08 else 1), 4)) for nm, w in rs]
             units = rng.choice(["moles", "mmol", "mmol", "umol", "mol"])
             base = {"moles": lu(rng, 1e-5, 5e-3), "mol": lu(rng, 1e-5, 5e-3), "mmol": lu(rng, 1e-2, 5), "umol": lu(rng, 5, 5000)}[units]
@@ -578,7 +624,7 @@ def render_input(S):
     if S["pp"]:
         L.append("EQUILIBRIUM_PHASES 1")
         for nm, si, m in S["pp"]:
-            L.append("  %s %s %s" % (nm, si, fnum(m)))
+            L.append("  %s %s %s" % (nm, si, m if isinstance(m, str) else fnum(m)))
     g = S["gas"]
     if g:
         L.append("GAS_PHASE 1")
@@ -604,9 +650,10 @@ def render_input(S):
             L.append("  -runge_kutta %s" % k["rk"])
         L += rates_block(k)
     L.append("SELECTED_OUTPUT 1\n  -reset false\n  -simulation true\n  -state true\n  -step true")
-    L.append("USER_PUNCH 1\n  -headings %s CB %s" % (" ".join("SYS_" + e for e in ELEMENTS),
+    ELS = [e for e in ELEMENTS if e in chem_for(S["db"]).elements]
+    L.append("USER_PUNCH 1\n  -headings %s CB %s" % (" ".join("SYS_" + e for e in ELS),
                                                    " ".join("KIN_" + c[0] for c in (k["comps"] if k else []))))
-    L.append("  10 PUNCH %s" % ", ".join('SYS("%s")' % e for e in ELEMENTS))
+    L.append("  10 PUNCH %s" % ", ".join('SYS("%s")' % e for e in ELS))
     L.append("  20 PUNCH CHARGE_BALANCE")
     if k:
         L.append("  30 PUNCH %s" % ", ".join('KIN("%s")' % c[0] for c in k["comps"]))
@@ -818,11 +865,16 @@ def build_cases(chem, S, result):
         coq = "(mkCase %s %s %s %s %d%%nat %s)" % (use, cb["kin"], "true" if sim["incr"] else "false", c_step, nsteps, ents)
         # --- per-step rows: SYS(e) + kinetic reactants = before + cumulative reaction
         steprows = []
+        alt_elts = set()
+        if S["pp"]:
+            for c_ in ent_pp(prev[("EQUILIBRIUM_PHASES", 1)]):
+                if c_.get("add_formula"):
+                    alt_elts |= set(chem.formula_of(c_["add_formula"]))
         base = dict(expected)
         inv_add(base, sorted(rinv.items()), -amt)
         for i, row in enumerate(srows, 1):
             a_k = total_amount_py(sim["incr"], r["equal"], r["steps"], r["count"] if r["equal"] else len(r["steps"]), r["units"], i) if r else F(0)
-            obs = {e: F(row["SYS_" + e]) for e in ELEMENTS if isinstance(row.get("SYS_" + e), float)}
+            obs = {e: F(row["SYS_" + e]) for e in ELEMENTS if isinstance(row.get("SYS_" + e), float) and e not in alt_elts}
             if S["kin"]:
                 kb = ent_kinetics(prev[("KINETICS", 1)])
                 for c in kb["comps"]:
@@ -935,6 +987,7 @@ def features(S):
     if any(s.get("run_cells") for s in S["sims"]):
         f.append("run_cells")
     f.append("chain%d" % len(S["sims"]))
+    f.append(S["db"])
     return f
 
 
@@ -986,8 +1039,12 @@ def coq_verdicts(cases_coq, rows_coq, use_gen, timeout=900):
 
 def run_systems(ctx, chem, systems, use_gen, stats, label):
     """run the systems through the library, build cases, let Coq judge them; report violations"""
+    import time
+    t0 = time.time()
     jobs = [{"id": i, "db": S["db"], "text": render_input(S), "flags": ["dump"]} for i, S in enumerate(systems)]
     res = vlib.run_inputs(jobs, timeout_each=40, workers=min(6, vlib.NCPU))
+    stats["t_engine_s"] += round(time.time() - t0, 1)
+    t0 = time.time()
     items = []       # (system index, case dict)
     for i, S in enumerate(systems):
         r = res.get(i, {})
@@ -998,7 +1055,7 @@ def run_systems(ctx, chem, systems, use_gen, stats, label):
             stats["error_runs(outside premises)"] += 1
             continue
         try:
-            cases = build_cases(chem, S, r)
+            cases = build_cases(chem_for(S["db"]), S, r)
         except Skip as ex:
             stats["skipped:" + str(ex)[:40]] = stats.get("skipped:" + str(ex)[:40], 0) + 1
             continue
@@ -1030,6 +1087,7 @@ def run_systems(ctx, chem, systems, use_gen, stats, label):
     with cf.ThreadPoolExecutor(max_workers=min(5, max(1, vlib.NCPU // 3))) as ex:
         futs = [ex.submit(coq_verdicts, cc, rr, use_gen) for cc, rr, _ in preps]
         verdicts = [f.result() for f in futs]
+    stats["t_coq_cases_s"] += round(time.time() - t0, 1)
     for pi, part in enumerate(parts):
         cc, rr, rmap = preps[pi]
         verdict, out = verdicts[pi]
@@ -1073,7 +1131,10 @@ def run_systems(ctx, chem, systems, use_gen, stats, label):
 def run(ctx):
     import collections
     stats = collections.Counter()
-    ok = vlib.coq_stage(ctx, "Props/Properties_C02.vo", gen=gen, timeout=900)
+    import time
+    t0 = time.time()
+    ok = vlib.coq_stage(ctx, "Props/Properties_C02.vo", gen=gen, extra_targets=("C02/Examples.vo",), timeout=900)
+    stats["t_coq_stage_s"] = round(time.time() - t0, 1)
     # is the model side (without the generated file) still available?
     use_gen = ok
     if not ok:
